@@ -265,12 +265,25 @@ func (s *scen) Apply(op int) bfs.Step {
 		switch o.kind {
 		case kMonth:
 			during = "month-expiry"
+			// jump to 5 s after the earliest pending month expiry of any version of the subscription
+			// (the version in force and the most recent one), or 31 days when there is none
 			dt := 31 * 24 * time.Hour
+			now := w.Ctx.BlockTime()
+			best := int64(0)
+			cands := []uint64{}
 			if hadBefore {
-				dt = time.Unix(int64(before.MonthExpiryTime), 0).Add(5 * time.Second).Sub(w.Ctx.BlockTime())
-				if dt < chain.BlockDt {
-					dt = chain.BlockDt
+				cands = append(cands, before.MonthExpiryTime)
+			}
+			if cur, ok := w.Keepers.Subscription.GetSubscription(w.Ctx, addr); ok {
+				cands = append(cands, cur.MonthExpiryTime)
+			}
+			for _, c := range cands {
+				if int64(c) > now.Unix() && (best == 0 || int64(c) < best) {
+					best = int64(c)
 				}
+			}
+			if best != 0 {
+				dt = time.Unix(best, 0).Add(5 * time.Second).Sub(now)
 			}
 			p, _ = step(dt)
 			obs = "month"
